@@ -141,6 +141,109 @@ public:
 		return true;
 	}
 	void leave() { if (mSlot) mSlot->risk = 0; }
+	// Runs f in a forked child so that a fatal outcome (std::terminate, sanitizer abort, signal, stack
+	// overflow, hang) costs a fork instead of a worker restart. Returns "ok:" + f()'s string, or the fatal
+	// kind ("terminate", "asan", "ubsan", "signal11", "hang", "exit<N>"). Use for cases that are likely fatal.
+	std::string isolate(const std::function<std::string()>& f, double timeout_s = 5.0) {
+		if (getenv("BSX_ISOLATE_INLINE")) return "ok:" + f();   // debugging aid: run in-process
+		int fd[2]; if (pipe(fd) != 0) return "exit:pipe";
+		fflush(nullptr);
+		pid_t p = fork();
+		if (p == 0) {
+			close(fd[0]);
+			std::string r = f();
+			(void)!write(fd[1], r.data(), std::min<size_t>(r.size(), 60000));
+			_exit(0);
+		}
+		close(fd[1]);
+		std::string out; char buf[4096];
+		const auto t0 = std::chrono::steady_clock::now(); bool hang = false;
+		fcntl(fd[0], F_SETFL, O_NONBLOCK);
+		for (;;) {
+			ssize_t k = read(fd[0], buf, sizeof buf);
+			if (k > 0) { out.append(buf, static_cast<size_t>(k)); continue; }
+			if (k == 0) break;
+			int st0 = 0; if (waitpid(p, &st0, WNOHANG) == p) { while ((k = read(fd[0], buf, sizeof buf)) > 0) out.append(buf, static_cast<size_t>(k)); close(fd[0]); return classify(st0, out); }
+			if (std::chrono::duration<double>(std::chrono::steady_clock::now() - t0).count() > timeout_s) { hang = true; break; }
+			heartbeat(); usleep(200);
+		}
+		close(fd[0]);
+		int st = 0;
+		if (hang) { kill(p, SIGKILL); waitpid(p, &st, 0); return "hang"; }
+		waitpid(p, &st, 0);
+		return classify(st, out);
+	}
+	// Runs f(*this) in a forked child and adopts everything the child did with this Ctx: the choices it
+	// took (streamed through a pipe as they are made, so they survive a crash of the child), outcomes,
+	// states, violations... Needed when every execution must start from pristine process state (lazily
+	// initialised statics). Returns "ok" or the fatal kind of the child.
+	std::string isolateExec(const std::function<void(Ctx&)>& f, double timeout_s = 20.0) {
+		int fd[2]; if (pipe(fd) != 0) return "exit:pipe";
+		fflush(nullptr);
+		pid_t p = fork();
+		if (p == 0) {
+			close(fd[0]); mStreamFd = fd[1]; mPrefixLenAtFork = mTaken.size();
+			// only what the child itself observes is sent back
+			mOutcomes.clear(); mNontrivial.clear(); mStates.clear(); mAux.clear(); mSamples.clear(); mViol.clear(); mTrans = 0; mExtraEvals = 0;
+			f(*this);
+			std::string o;
+			auto put = [&](char k, const std::string& a, const std::string& b = std::string()) { o += k; o += std::to_string(a.size()) + ":" + a + std::to_string(b.size()) + ":" + b + "\n"; };
+			for (auto& x : mOutcomes) put('O', x);
+			for (auto h : mNontrivial) put('N', std::to_string(h));
+			for (auto h : mStates) put('S', std::to_string(h));
+			for (auto h : mAux) put('A', std::to_string(h));
+			for (auto& x : mSamples) put('P', x);
+			for (auto& v : mViol) put('V', v.first, v.second);
+			put('T', std::to_string(mTrans)); put('E', std::to_string(mExtraEvals)); put('D', mSigBase, mDesc);
+			(void)!write(fd[1], o.data(), o.size());
+			_exit(0);
+		}
+		close(fd[1]);
+		std::string out; char buf[8192];
+		const auto t0 = std::chrono::steady_clock::now(); bool hang = false; int st = 0; bool reaped = false;
+		fcntl(fd[0], F_SETFL, O_NONBLOCK);
+		for (;;) {
+			ssize_t k = read(fd[0], buf, sizeof buf);
+			if (k > 0) { out.append(buf, static_cast<size_t>(k)); continue; }
+			if (k == 0) break;
+			if (waitpid(p, &st, WNOHANG) == p) { reaped = true; while ((k = read(fd[0], buf, sizeof buf)) > 0) out.append(buf, static_cast<size_t>(k)); break; }
+			if (std::chrono::duration<double>(std::chrono::steady_clock::now() - t0).count() > timeout_s) { hang = true; break; }
+			heartbeat(); usleep(100);
+		}
+		close(fd[0]);
+		if (hang) { kill(p, SIGKILL); waitpid(p, &st, 0); } else if (!reaped) waitpid(p, &st, 0);
+		// adopt: choice records "c<v>,<eff>,<dev>;" first, then observation records
+		size_t i = 0;
+		while (i < out.size() && out[i] == 'c') {
+			size_t e = out.find(';', i); if (e == std::string::npos) break;
+			int v = 0, eff = 1, dev = 0; sscanf(out.c_str() + i + 1, "%d,%d,%d", &v, &eff, &dev);
+			size_t idx = mTaken.size();
+			mTaken.push_back(v); mArity.push_back(eff); mIsDev.push_back(static_cast<char>(dev)); if (dev && v > 0) ++mDevUsed;
+			if (mSlot && idx < static_cast<size_t>(MAXD)) { mSlot->c[idx] = v; mSlot->n[idx] = eff; mSlot->depth = static_cast<int>(idx + 1); }
+			i = e + 1;
+		}
+		while (i < out.size()) {
+			char k = out[i++]; size_t c1 = out.find(':', i); if (c1 == std::string::npos) break;
+			size_t la = strtoul(out.c_str() + i, nullptr, 10); std::string a = out.substr(c1 + 1, la); i = c1 + 1 + la;
+			size_t c2 = out.find(':', i); if (c2 == std::string::npos) break;
+			size_t lb = strtoul(out.c_str() + i, nullptr, 10); std::string b = out.substr(c2 + 1, lb); i = c2 + 1 + lb + 1;
+			switch (k) {
+			case 'O': mOutcomes.push_back(a); break; case 'N': mNontrivial.push_back(strtoull(a.c_str(), nullptr, 10)); break;
+			case 'S': mStates.push_back(strtoull(a.c_str(), nullptr, 10)); break; case 'A': mAux.push_back(strtoull(a.c_str(), nullptr, 10)); break;
+			case 'P': if (mSamples.size() < 2) mSamples.push_back(a); break; case 'V': mViol.emplace_back(a, b); break;
+			case 'T': mTrans += strtoull(a.c_str(), nullptr, 10); break; case 'E': mExtraEvals += strtoull(a.c_str(), nullptr, 10); break;
+			case 'D': if (!a.empty()) describe(a, b); break;
+			}
+		}
+		if (hang) return "hang";
+		std::string r = classify(st, ""); return r == "ok:" ? "ok" : r;
+	}
+	static std::string classify(int st, const std::string& out) {
+		if (WIFEXITED(st) && WEXITSTATUS(st) == 0) return "ok:" + out;
+		if (WIFSIGNALED(st)) return "signal" + std::to_string(WTERMSIG(st));
+		int e = WEXITSTATUS(st);
+		return e == 86 ? "terminate" : e == 87 ? "asan" : e == 88 ? "ubsan" : "exit" + std::to_string(e);
+	}
 	static constexpr size_t kCrashTab = 1 << 16;
 	void outcome(const std::string& cls) { mOutcomes.push_back(cls); }
 	void nontrivial(const std::string& key) { mNontrivial.push_back(fnv(key)); }
@@ -173,6 +276,7 @@ private:
 		}
 		if (dev && v > 0) ++mDevUsed;
 		mTaken.push_back(v); mArity.push_back(eff); mIsDev.push_back(dev);
+		if (mStreamFd >= 0 && i >= mPrefixLenAtFork) { char cb[48]; int n2 = snprintf(cb, sizeof cb, "c%d,%d,%d;", v, eff, dev ? 1 : 0); (void)!write(mStreamFd, cb, static_cast<size_t>(n2)); }
 		if (mSlot) { mSlot->c[i] = v; mSlot->n[i] = eff; mSlot->depth = static_cast<int>(i + 1); }
 		if (!replaying && mPartDepth > 0 && static_cast<int>(i + 1) == mPartDepth && !owned()) throw SkipSubtree{};
 		return v;
@@ -191,7 +295,7 @@ private:
 	}
 	std::vector<int> mPrefix, mTaken, mArity; std::vector<char> mIsDev;
 	int mDevUsed = 0, mPartDepth = 2, mWorkers = 1, mWorker = 0; uint64_t mSalt = 0;
-	Slot* mSlot = nullptr; volatile uint64_t* mCrashed = nullptr;
+	Slot* mSlot = nullptr; volatile uint64_t* mCrashed = nullptr; int mStreamFd = -1; size_t mPrefixLenAtFork = 0;
 	std::vector<std::string> mOutcomes, mSamples; std::vector<uint64_t> mNontrivial, mStates, mAux;
 	uint64_t mTrans = 0, mExtraEvals = 0;
 	std::vector<std::pair<std::string, std::string>> mViol;
